@@ -17,6 +17,7 @@ class Reach:
     def __init__(self, prefix: str):
         self.prefix = prefix
         self.counts = {}
+        self.lines = set()
         self.installed = False
 
     def install(self):
@@ -25,8 +26,23 @@ class Reach:
             return
         mon.use_tool_id(TOOL_ID, "spverif-reach")
         mon.register_callback(TOOL_ID, mon.events.PY_START, self._start)
-        mon.set_events(TOOL_ID, mon.events.PY_START)
+        mon.register_callback(TOOL_ID, mon.events.LINE, self._line)
+        mon.set_events(TOOL_ID, mon.events.PY_START | mon.events.LINE)
         self.installed = True
+
+    def _line(self, code, line):
+        # one-shot per line: record and disable this location, so the cost is paid once per source line
+        if code.co_filename.startswith(self.prefix):
+            self.lines.add((code.co_filename, line))
+        return sys.monitoring.DISABLE
+
+    def lines_hit(self, rel_files):
+        out = {}
+        for fn, line in self.lines:
+            rel = fn[len(self.prefix):].lstrip("/")
+            if rel in rel_files:
+                out.setdefault(rel, []).append(line)
+        return {k: sorted(v) for k, v in out.items()}
 
     def _start(self, code, offset):
         if not code.co_filename.startswith(self.prefix):
@@ -71,3 +87,40 @@ def defined_functions(prefix: str, rel_files):
 
 def _is_class_body(code) -> bool:
     return "__qualname__" in code.co_names and "__module__" in code.co_names
+
+
+def function_lines(prefix: str, rel_files):
+    """{rel file: {line: qualname}} for every line that starts a statement inside a function body of the file."""
+    out = {}
+    for rel in rel_files:
+        path = os.path.join(prefix, rel)
+        try:
+            with open(path) as f:
+                top = compile(f.read(), path, "exec")
+        except Exception:
+            continue
+        m = out.setdefault(rel, {})
+        stack = [top]
+        while stack:
+            c = stack.pop()
+            for k in c.co_consts:
+                if isinstance(k, types.CodeType):
+                    stack.append(k)
+                    if _is_class_body(k):
+                        continue
+                    for _s, _e, ln in k.co_lines():
+                        if ln is not None and ln != k.co_firstlineno:
+                            m.setdefault(ln, k.co_qualname)
+    return out
+
+
+def ranges(nums):
+    nums = sorted(nums)
+    out, i = [], 0
+    while i < len(nums):
+        j = i
+        while j + 1 < len(nums) and nums[j + 1] == nums[j] + 1:
+            j += 1
+        out.append(str(nums[i]) if i == j else f"{nums[i]}-{nums[j]}")
+        i = j + 1
+    return ",".join(out)
